@@ -27,7 +27,7 @@ def main() -> None:
             caught = ('undecided (exit 2) by ' + ', '.join(und)) if und else '**missed**'
         elif not own:
             caught += ' - not by its own check' + (f' (which is undecided)' if m['property'] in und else '')
-        rnd = {'a': 1, 'b': 1, 'c': 2, 'd': 2, 'e': 5, 'f': 5, 'g': 6, 'h': 7, 'i': 8}.get(m['id'][-1], 0)
+        rnd = {'a': 1, 'b': 1, 'c': 2, 'd': 2, 'e': 5, 'f': 5, 'g': 6, 'h': 7, 'i': 8, 'j': 9}.get(m['id'][-1], 0)
         stats.setdefault(rnd, [0, 0, 0, 0, 0])
         stats[rnd][0] += 1
         stats[rnd][1] += own
